@@ -51,6 +51,8 @@ func TestVerifBounded(t *testing.T) {
 		values = append(values, `[`+l+`]`, `{"k":`+l+`}`, `{"x":`+l+`}`, `[[`+l+`]]`, `[{"k":`+l+`}]`, `[{"x":`+l+`}]`, `{"k":[`+l+`]}`, `{"k":{"x":`+l+`}}`, `{"k":{"k":`+l+`}}`)
 	}
 	values = append(values, `[1,"x",null,true]`, `{"k":1,"j":"x"}`)
+	// lists and objects given as strings (how every form / path / header container arrives)
+	values = append(values, `"[1,2]"`, `"[\"x\"]"`, `"[null]"`, `"[]"`, `"[[1]]"`, `"{\"k\":1}"`, `"{\"k\":\"x\"}"`, `"{}"`, `"[1"`)
 
 	goValues := []any{[3]int{1, 2, 3}, [2]int{1, 2}, struct{ Z int }{1}, make(chan int), func() {}, new(int), map[string]any(nil), []any(nil),
 		map[int]int{1: 2}, []string{"x"}, []int{1}, int8(5), uint64(1 << 63), float32(1.5), verifBoundedStr("x"), verifBoundedBool(true),
